@@ -143,40 +143,93 @@ def prepare(lean_targets=(), need_race=False):
 
 def _run_one(binary, ops, timeout_per_op=20.0, env=None):
     """Feed ops to a line-protocol driver; robust against crashes and hangs: an op that kills or hangs the
-    process yields 'crash <detail>' and the rest continues in a fresh process."""
+    process yields 'crash <detail>' and the rest continues in a fresh process. The time limit is per operation
+    (the drivers flush one result line per op): the clock restarts whenever a result line arrives."""
+    import selectors
     out = [None] * len(ops)
     i = 0
     while i < len(ops):
-        p = subprocess.Popen([binary], stdin=subprocess.PIPE, stdout=subprocess.PIPE, stderr=subprocess.PIPE, env=env)
+        errf = tempfile.TemporaryFile()
+        p = subprocess.Popen([binary], stdin=subprocess.PIPE, stdout=subprocess.PIPE, stderr=errf, env=env)
         data = ("\n".join(ops[i:]) + "\n").encode()
-        budget = max(30.0, timeout_per_op * 2 + 0.002 * (len(ops) - i))
+
+        def feed(proc=p, payload=data):
+            try:
+                proc.stdin.write(payload)
+                proc.stdin.close()
+            except (BrokenPipeError, OSError, ValueError):
+                pass
+        wt = threading.Thread(target=feed, daemon=True)
+        wt.start()
+        sel = selectors.DefaultSelector()
+        sel.register(p.stdout, selectors.EVENT_READ)
+        fd = p.stdout.fileno()
+        buf = b""
+        start_i = i
+        timed_out = False
+        eof = False
+        limit = max(timeout_per_op, 5.0)
+        deadline = time.time() + limit + 10.0      # process start-up allowance for the first op
+        while i < len(ops) and not eof:
+            left = deadline - time.time()
+            if left <= 0:
+                timed_out = True
+                break
+            if not sel.select(timeout=min(left, 1.0)):
+                continue
+            chunk = os.read(fd, 1 << 16)
+            if not chunk:
+                eof = True
+                break
+            buf += chunk
+            while i < len(ops):
+                k = buf.find(b"\n")
+                if k < 0:
+                    break
+                out[i] = buf[:k].decode("utf-8", "replace")
+                buf = buf[k + 1:]
+                i += 1
+                deadline = time.time() + limit
+        sel.close()
+        if timed_out or i < len(ops):
+            p.kill()
         try:
-            so, se = p.communicate(data, timeout=budget)
-            timed_out = False
+            p.wait(timeout=10)
         except subprocess.TimeoutExpired:
             p.kill()
-            so, se = p.communicate()
-            timed_out = True
-        lines = so.decode("utf-8", "replace").split("\n")
-        if lines and lines[-1] == "":
-            lines.pop()
-        n = min(len(lines), len(ops) - i)
-        for k in range(n):
-            out[i + k] = lines[k]
-        i += n
+            p.wait()
+        try:
+            p.stdout.close()
+        except OSError:
+            pass
+        wt.join(timeout=5)
         if i < len(ops):
-            if p.returncode == 0 and not timed_out and n == 0:
+            if p.returncode == 0 and not timed_out and i == start_i:
                 # driver produced nothing at all: avoid looping forever
                 out[i] = "crash no-output"
             else:
-                tail = se.decode("utf-8", "replace").strip().split("\n")
+                errf.seek(0)
+                tail = errf.read().decode("utf-8", "replace").strip().split("\n")
                 first = next((l for l in tail if l.startswith(("panic", "fatal error", "runtime:"))), tail[0] if tail else "")
                 out[i] = ("crash hang" if timed_out else "crash " + first[:160])
             i += 1
+        errf.close()
     return out
 
 
 def run_batch(binary, ops, shards=None, timeout_per_op=20.0, env=None):
+    """Sharded batch. The Lean driver (model and specification) does not depend on /repo, so an operation of it
+    that exceeds the time limit says nothing about the engine (it happens under machine load): it is run again
+    alone with a long limit before the result 'crash hang' is handed to the caller."""
+    out = _run_batch(binary, ops, shards, timeout_per_op, env)
+    if binary == MDRV:
+        for i, r in enumerate(out):
+            if r == "crash hang":
+                out[i] = _run_one(binary, [ops[i]], max(300.0, 4 * timeout_per_op), env)[0]
+    return out
+
+
+def _run_batch(binary, ops, shards=None, timeout_per_op=20.0, env=None):
     if not ops:
         return []
     shards = shards or min(NCPU, max(1, len(ops) // 200))
